@@ -15,9 +15,9 @@
    Array elements are [num]: an integer or a float.  The conversion is
    elementwise, so the model is a scalar function mapped over the flat list,
    plus the aliasing rule that says when the caller's buffer is overwritten. *)
-From Coq Require Import ZArith QArith Bool List.
+From Coq Require Import ZArith QArith Qabs Bool List.
 From Coq Require Import SpecFloat.
-From NGS Require Import DType FloatModel.
+From NGS Require Import Val DType FloatModel.
 Import ListNotations.
 Open Scope Z_scope.
 
@@ -196,3 +196,32 @@ Definition num_decode (d : dtype) (z : Z) : num :=
   if is_int d then NI z else NF (of_bits (fmt_of d) z).
 Definition num_encode (d : dtype) (v : num) : Z :=
   match v with NI z => z | NF x => to_bits (fmt_of d) x end.
+
+(* ---- guards: the regions where the transformer departs from nearest_sat -------
+   (executable; the harness classifies known findings with the same predicates,
+   cross-checked against these on every classified case) *)
+
+(* float -> uint64 at and above 2^64: the clip bound 2^64-1 becomes 2^64 in
+   float64 and the C cast of 2^64 gives 0 *)
+Definition uint64_top_guard (i o : dtype) (v : num) : bool :=
+  negb (negb (is_int i) && dtype_eqb o U64 && Qle_bool (inject_Z two64z) (num2Q v)).
+
+
+(* int64 -> uint64 goes through float64 (promote_types): inexact above 2^53 *)
+Definition int64_via_float_guard (i o : dtype) (v : num) : bool :=
+  negb (dtype_eqb i I64 && dtype_eqb o U64 &&
+        match v with NI z => 2 ^ 53 <? z | NF _ => false end).
+
+
+(* float64 -> float32 overflows to infinity beyond the rounding boundary of FLT_MAX *)
+Definition f32_overflow_bound : Q := inject_Z (2 ^ 128 - 2 ^ 103).
+Definition float32_overflow_guard (i o : dtype) (v : num) : bool :=
+  negb (dtype_eqb i F64 && dtype_eqb o F32 &&
+        match Qcompare (Qabs (num2Q v)) f32_overflow_bound with Lt => false | _ => true end).
+
+
+(* the transformer asserts that the chunk's dtype is the declared input dtype
+   (np.can_cast(..., "equiv"): same type up to byte order) *)
+Definition convert_checked (chunk_dt i o : dtype) (preserve writeable native : bool) (l : list num)
+  : outcome (list num * list num) :=
+  if dtype_eqb chunk_dt i then Ok (convert i o preserve writeable native l) else Crash AssertionError.
